@@ -538,6 +538,40 @@ class Unit:
                     edits.append(Edit(prm["span"][0], prm["ty"][0], lambda r, nm=nm: f"{nm}: "))
                     r19.append(nm)
                     self.log("R19", relfile, src, prm["span"][0], f"{path}: `mut {nm}` parameter rebound at function entry")
+        # R24: raw-pointer parameters of the C-ABI wrappers. `p: *mut T` whose first use is the statement
+        # `let p = p.as_ref().ok_or(E)?;` / `let p = p.as_mut().ok_or(E)?;` becomes a parameter `p: &mut T` and that statement is
+        # dropped (what is dropped: the null check, i.e. the behaviour for null pointers). Always `&mut`, so that the contract can
+        # state that an object only read by the wrapper is left unchanged.
+        if "r24" in opts and it["body"]:
+            for prm in it["params"]:
+                if "ty" not in prm:
+                    continue
+                tytxt = src[prm["ty"][0]:prm["ty"][1]].decode().strip()
+                mty = re.fullmatch(r"\*mut\s+(.+)", tytxt, re.S)
+                if not mty:
+                    continue
+                nm = prm["name"].strip()
+                pat = re.compile(r"let\s+" + re.escape(nm) + r"\s*=\s*" + re.escape(nm) + r"\s*\.\s*as_(ref|mut)\(\)\s*\.\s*ok_or\([^;]*\)\s*\?\s*;", re.S)
+                hit = None
+                for st in it.get("stmts", []):
+                    if pat.fullmatch(src[st[0]:st[1]].decode().strip()):
+                        hit = st
+                        break
+                if hit is None:
+                    raise AnchorLost(f"{where}: r24: no `let {nm} = {nm}.as_ref()/as_mut().ok_or(..)?;` statement for the pointer parameter `{nm}`")
+                edits.append(Edit(hit[0], hit[1], lambda r: ""))
+                edits.append(Edit(prm["ty"][0], prm["ty"][1], lambda r, t=mty.group(1): f"&mut {t}"))
+                self.log("R24", relfile, src, prm["span"][0], f"{path}: pointer parameter `{nm}: {tytxt}` -> `&mut {mty.group(1)}`; null-check statement dropped")
+        r24m_names = []
+        if "r24m" in opts and it["body"]:
+            for prm in it["params"]:
+                if "ty" not in prm:
+                    continue
+                tytxt = src[prm["ty"][0]:prm["ty"][1]].decode().strip()
+                mty = re.fullmatch(r"\*mut\s+(.+)", tytxt, re.S)
+                if mty:
+                    edits.append(Edit(prm["ty"][0], prm["ty"][1], lambda r, t=mty.group(1): f"&mut {t}"))
+                    r24m_names.append(prm["name"].strip())
         # R20: an async fn without a declared return type gets `-> (r: ())` (the installed Verus silently drops the `ensures` of
         # async functions that have no named return value)
         if it.get("is_async") and not it["ret"]:
@@ -916,6 +950,23 @@ class Unit:
             btxt = r.render(bs, be)
             if r23k is not None:
                 btxt = "{" + entry_txt_r23 + r.render(it["stmts"][r23k][0], be - 1) + "}"
+            if "r24m" in opts:
+                # R24 (match form): the body is `match p.as_mut() { None => A, Some(p) => B }` for a pointer parameter p: the parameter
+                # becomes `p: &mut T` and the body becomes `B` (dropped: the None arm, i.e. the behaviour for a null pointer)
+                b0 = btxt.strip()
+                if entry_txt_r23 and b0.startswith("{" + entry_txt_r23):
+                    b0 = "{" + b0[1 + len(entry_txt_r23):]
+                mm = re.fullmatch(r"\{\s*match\s+(\w+)\s*\.\s*as_(?:mut|ref)\(\)\s*\{\s*None\s*=>\s*(.*?),\s*Some\(\s*(\w+)\s*\)\s*=>\s*(.*?),?\s*\}\s*\}", b0, re.S)
+                if not mm or mm.group(1) != mm.group(3) or mm.group(1) not in r24m_names:
+                    raise AnchorLost(f"{where}: r24m: the body is not `match p.as_mut() {{ None => .., Some(p) => .. }}` for a pointer parameter")
+                # the None arm must be a single expression without a top-level comma (otherwise the split above is wrong)
+                depth_ = 0
+                for ch in mm.group(2):
+                    depth_ += ch in "([{"; depth_ -= ch in ")]}"
+                if depth_ != 0:
+                    raise AnchorLost(f"{where}: r24m: cannot split the match arms")
+                self.log("R24", relfile, src, bs, f"{path}: body `match {mm.group(1)}.as_mut() {{ None => {mm.group(2).strip()}, Some({mm.group(1)}) => B }}` -> `B`; the None arm (null pointer) is dropped")
+                btxt = "{ " + entry_txt_r23 + mm.group(4).strip() + " }"
             if "r21" in opts:
                 btxt = re.sub(r"\b(?:tokio::time::)?Instant::now\(\)", "clk__.now()", btxt)
             self.emit(btxt + "\n", {"kind": "body", "file": relfile, "fn": fname, "line": line_of(src, bs), "tags": tags,
